@@ -693,11 +693,12 @@ func c24SourceReadOnly(r *core.Run, p *core.Prog) {
 }
 
 func c25(r *core.Run) {
-	r.Expl = "C25 (interrupted merge never duplicates or hides data): decides (1) the order inside commitStagedDay: an existing destination day is renamed to its backup name before the staged day is renamed into place, the backup is removed only after that rename succeeded and restored if it failed; new days reach their final path by one rename from the stage directory, never by being written in place (MergeDatabases hands every copy / rebuild to the stage root and commitStagedDay); (2) namespace separation (P17): the names the merge reserves inside a database — the stage directory pattern below the DB root and the backup pattern next to a day directory — are evaluated, as constants, against the name predicate of every function that turns directory entries into interfaces or days (info.GetInterfaces, listSourceInterfaces, walkDB, listInterfaceDays, locateDayDirectory, the prefix search used to recover a renamed day): a lister that accepts a reserved name mistakes leftovers of a killed merge for an interface or a day. NOT decided: the state at each crash point; the window between the two renames of commitStagedDay is inherent to the two-rename swap and recorded as a known finding."
+	r.Expl = "C25 (interrupted merge never duplicates or hides data): decides (1) the order inside commitStagedDay: an existing destination day is renamed to its backup name before the staged day is renamed into place, the backup is removed only after that rename succeeded and restored if it failed, and the backup name starts with the replaced day's own path (it stays beside the day, not in the staging area); new days reach their final path by one rename from the stage directory, never by being written in place (MergeDatabases hands every copy / rebuild to the stage root and commitStagedDay); (2) namespace separation (P17): the names the merge reserves inside a database — the stage directory pattern below the DB root and the backup pattern next to a day directory — are evaluated, as constants, against the name predicate of every function that turns directory entries into interfaces or days (info.GetInterfaces, listSourceInterfaces, walkDB, listInterfaceDays, locateDayDirectory, the prefix search used to recover a renamed day): a lister that accepts a reserved name mistakes leftovers of a killed merge for an interface or a day. NOT decided: the state at each crash point; the window between the two renames of commitStagedDay is inherent to the two-rename swap and recorded as a known finding."
 	r.Floor = 7
 	r.Rules = append(r.Rules, "commit-order (P1)", "reserved-name-separation (P17)", "staged-then-renamed")
 	p := r.Prog("cgo")
 	c25Commit(r, p)
+	c25BackupPlace(r, p)
 	c25Names(r, p)
 }
 
@@ -780,6 +781,104 @@ func c25Commit(r *core.Run, p *core.Prog) {
 			}
 		}
 		r.Check("staged-then-renamed", "MergeDatabases:days-staged-then-committed", p.Rel(m.Decl.Pos()), bad == "" && nStage >= 2 && commits == nStage, orStr(bad, fmt.Sprintf("%d staging calls, %d commits", nStage, commits)))
+	}
+}
+
+// c25BackupPlace: the day that is being replaced is moved aside *next to itself*: the target of the rename that moves the
+// existing day away must be a path whose leading element is the existing day's own path. Then the rename stays inside one
+// directory of the destination (atomic, same file system) and, whatever happens next, the old data is still in the
+// database tree where the restore step and an operator find it. Parked anywhere else — in particular inside the staging
+// area, which every lister skips and the end of the merge deletes — a merge killed between the two renames leaves the day
+// neither under its name nor under a name derived from it.
+func c25BackupPlace(r *core.Run, p *core.Prog) {
+	const rule = "commit-order"
+	f := r.MustFunc(rule, pkgGoDB, "commitStagedDay")
+	if f == nil {
+		return
+	}
+	info := f.Info()
+	sig := f.Obj.Type().(*types.Signature)
+	if sig.Params().Len() < 4 {
+		r.Undecided(rule, "commitStagedDay:backup-beside-the-replaced-day", p.Rel(f.Decl.Pos()), "signature changed")
+		return
+	}
+	existing := sig.Params().At(3)
+	// the expression a local path variable holds: its single definition, or its single assignment after `var x string`
+	valueOf := func(e ast.Expr) ast.Expr {
+		e = resolveLocal(info, f.Decl.Body, ast.Unparen(e))
+		if id, ok := ast.Unparen(e).(*ast.Ident); ok {
+			o := core.ObjOf(info, id)
+			var rhs ast.Expr
+			n := 0
+			core.Walk(f.Decl.Body, true, func(x ast.Node) bool {
+				if a, isA := x.(*ast.AssignStmt); isA && len(a.Lhs) == len(a.Rhs) {
+					for k, l := range a.Lhs {
+						if core.ObjOf(info, l) == o && o != nil {
+							rhs = a.Rhs[k]
+							n++
+						}
+					}
+				}
+				return true
+			})
+			if n == 1 {
+				return rhs
+			}
+		}
+		return e
+	}
+	var lead func(e ast.Expr, depth int) (types.Object, bool)
+	lead = func(e ast.Expr, depth int) (types.Object, bool) {
+		if depth > 8 {
+			return nil, false
+		}
+		e = ast.Unparen(valueOf(e))
+		switch x := e.(type) {
+		case *ast.CallExpr:
+			switch core.CallName(info, x) {
+			case "fmt.Sprintf":
+				if len(x.Args) >= 2 {
+					if format, ok := core.ConstStr(info, x.Args[0]); ok && strings.HasPrefix(format, "%") && !strings.HasPrefix(format, "%%") {
+						return lead(x.Args[1], depth+1)
+					}
+				}
+				return nil, false
+			case "path/filepath.Join", "path/filepath.Clean", "path/filepath.Dir", "path.Join", "strings.TrimSuffix", "strings.TrimRight":
+				if len(x.Args) > 0 {
+					return lead(x.Args[0], depth+1)
+				}
+			}
+			return nil, false
+		case *ast.BinaryExpr:
+			if x.Op == token.ADD {
+				return lead(x.X, depth+1)
+			}
+			return nil, false
+		case *ast.Ident, *ast.SelectorExpr:
+			o := core.ObjOf(info, rootExpr(e))
+			return o, o != nil
+		}
+		return nil, false
+	}
+	n := 0
+	for _, c := range core.Calls(f.Decl.Body, false) {
+		if core.CallName(info, c) != "os.Rename" || len(c.Args) != 2 {
+			continue
+		}
+		if core.ObjOf(info, rootExpr(ast.Unparen(valueOf(c.Args[0])))) != types.Object(existing) {
+			continue
+		}
+		n++
+		o, ok := lead(c.Args[1], 0)
+		if !ok {
+			r.Undecided(rule, "commitStagedDay:backup-beside-the-replaced-day", p.Rel(c.Pos()), "cannot tell which path the backup name "+core.Str(c.Args[1])+" starts with")
+			continue
+		}
+		r.Check(rule, "commitStagedDay:backup-beside-the-replaced-day", p.Rel(c.Pos()), o == types.Object(existing),
+			fmt.Sprintf("the replaced day is moved to a path that starts with %s instead of its own path: between the two renames of the commit the old data is then outside the destination's day directories (with the staging area: hidden from every lister and deleted when the merge ends), so a merge killed there leaves the day under no name at all", o.Name()))
+	}
+	if n == 0 {
+		r.Undecided(rule, "commitStagedDay:backup-beside-the-replaced-day", p.Rel(f.Decl.Pos()), "no rename that moves the existing day away")
 	}
 }
 
